@@ -9,6 +9,7 @@ only the properties that rely on it:
   GenTwins (parallel arms are the rayon twins of the sequential ones)
 -/
 import Qvnt.Lemmas.GenQuant
+import Qvnt.Lemmas.GenQProb
 import Qvnt.Lemmas.GenOps
 import Qvnt.Lemmas.GenBits
 import Qvnt.Lemmas.GenH
